@@ -561,6 +561,49 @@ func genC07(g *Gen) {
 			g.Emit("lru", []string{itoa(2*n + 100)}, ops)
 		}
 	}
+	// very large populations (a threshold >= 2^15 a change introduced into the source): the monitor alone judges
+	// these cases (Kinds/Lru.lean: bigRun), so only capacities above 50000 are used
+	for _, s := range extraSizes() {
+		n := s + 2
+		if n <= 40000 || n > 70000 {
+			continue
+		}
+		for v := 0; v < 3; v++ {
+			if !g.Mine() {
+				continue
+			}
+			ops := []string{"create"}
+			for i := 0; i < n+20; i++ {
+				ops = append(ops, "add "+itoa(i)+" "+itoa(i))
+				if i == s-2 || i == s-1 || i == s || i == s+1 {
+					ops = append(ops, "count", "getyoungest")
+				}
+			}
+			ops = append(ops, "count", "get 0", "get "+itoa(n/2), "getoldest", "getyoungest")
+			capacity := 2*n + 100
+			switch v {
+			case 1: // evictions at the threshold: capacity = s+2, 40 more keys
+				capacity = n
+				for i := n + 20; i < n+60; i++ {
+					ops = append(ops, "add "+itoa(i)+" "+itoa(i))
+				}
+				ops = append(ops, "count", "get 3", "get 60", "getoldest")
+			case 2: // drain from the young end down to an eighth, then look at the old end
+				for i := 0; i < n+20-n/8; i++ {
+					ops = append(ops, "removeyoungest")
+					if i%(n/16) == 0 {
+						ops = append(ops, "count")
+					}
+				}
+				ops = append(ops, "count", "get 1", "get 2", "getoldest", "add 5 7", "count")
+			}
+			for i := 0; i < 4; i++ {
+				ops = append(ops, "removeoldest")
+			}
+			ops = append(ops, "count")
+			g.Emit("lru", []string{itoa(capacity)}, ops)
+		}
+	}
 	n := 300
 	if g.Thorough() {
 		n = 6000
